@@ -334,10 +334,13 @@ class C09(CoreCheck):
     profiles = ["event", "event", "mixed"]
     with_faults = 0.5
     rule = ("raw events posted from set-up, from handlers (including its own, after the read) and 'externally' at wait time (stand-in for "
-            "other threads / signal handlers / children writing the descriptor), bursts, eventfd2 / old eventfd / pipe fall-backs; "
+            "other threads / signal handlers / children writing the descriptor), bursts, eventfd2 / old eventfd / pipe fall-backs, also switching mid-run (eventfd creation failing from the k-th call on: eventfd- and pipe-backed objects side by side); "
             "non-trivial = >= 1 raw-event callback; distinct = distinct scenario text")
     assumptions = ["single-threaded scenarios: posts by other contexts are kernel-side counter increments injected at wait entry or between "
-                   "actions; the interleaving of a poster with the owner inside iv_event_raw_got_event is covered by the MT checks"]
+                   "actions; the interleaving of a poster with the owner inside iv_event_raw_got_event is covered by the MT checks",
+                   "implementation runs use bursts of up to 18000 posts (one trace segment per post, trace cap 20000); bursts larger than "
+                   "a pipe buffer (65536 posts) are covered by the theorem, which holds for every burst length on the model whose pipe "
+                   "semantics (65536 bytes, then EAGAIN, never blocking) is probed against Linux on every C15 run (vk_smoke)"]
 
     def nontrivial(self, case, mo):
         return self.count(mo, r"\| Cr") >= 1
@@ -360,13 +363,19 @@ class C09(CoreCheck):
                 if rng.random() < 0.4:
                     secs.append("W%d:%s" % (w, " ".join(["rp%d" % rng.randint(0, 1)] * rng.choice([1, 3, 70]))[:120]))
             cases.append(";".join(secs))
+        # eventfd2 / eventfd failing from the k-th creation on: mixed transports, posts to objects on both sides of the cut
+        for _ in range(n // 4):
+            cases.append(core_gen.efd_cut(rng, rng.choice(self.backends)))
         # long bursts around the read size of the pipe fall-back (1024) and beyond a pipe buffer (65536),
         # on every transport, posted before the loop runs and while it is blocked
         for _ in range(max(6, n // 40)):
             be = rng.choice(self.backends)
             fl = rng.choice([["noeventfd"], ["noeventfd"], ["noeventfd2"], None])
+            # the trace has one segment per post and ivsim cuts a trace after 20000 segments (run-away guard), so bursts
+            # stay below that; bursts beyond a pipe buffer (65536) are covered by the theorem (every burst length; the
+            # virtual pipe returns EAGAIN when full, probed against Linux by vk_smoke) -- see `assumptions`
             burst = rng.choice([1023, 1024, 1025, 2047, 2048, 3072, 4096, 1024]) if ctx.tier == "quick" or rng.random() < 0.8 \
-                else rng.choice([65535, 65536, 65537, 70000])
+                else rng.choice([8191, 8192, 12000, 16384, 18000])
             where = rng.choice(["S", "W"])
             secs = ["B" + be] + (["X" + ",".join(fl)] if fl else []) + ["M6"]
             posts = " ".join(["rp0"] * burst)
@@ -586,7 +595,7 @@ class C15(CoreCheck):
     profiles = ["mixed", "fd", "timer", "event"]
     with_faults = 0.8
     rule = ("the C01-C09 scenario programs x 4 poll methods x EINTR on the k-th wait / k-th epoll_ctl x each optional system call failing "
-            "(ENOSYS/EPERM) from its first call, plus groups of 4 order-independent scenarios (one per poll method) whose callback sequences "
+            "(ENOSYS/EPERM) from its first call -- eventfd2 / eventfd also from the k-th creation on (efdok=<k>: objects registered before and after the cut, posts to both, re-registration across the cut, the epoll kick descriptor re-created after it) --, plus groups of 4 order-independent scenarios (one per poll method) whose callback sequences "
             "must be identical; non-trivial = a fault was injected or the method is not the default, and >= 1 callback ran; distinct = "
             "distinct scenario text.  Plus: 180+ generated IV_EXCLUDE_POLL_METHOD strings (all subsets and orders of the four names, "
             "unknown tokens, prefixes / extensions of method names, over-long tokens, every kind of whitespace, empty, unset) for which "
@@ -612,6 +621,9 @@ class C15(CoreCheck):
 
     def cases(self, ctx):
         cases = CoreCheck.cases(self, ctx)
+        rng = vlib.rng_for(ctx.seed, "C15k")
+        for _ in range(120 if ctx.tier == "quick" else 2400):
+            cases.append(core_gen.efd_cut(rng, rng.choice(core_gen.BACKENDS)))
         rng = vlib.rng_for(ctx.seed, "C15x")
         self.groups = []
         for _ in range(60 if ctx.tier == "quick" else 1200):
